@@ -3,6 +3,7 @@ package main
 import (
 	"fmt"
 	"go/constant"
+	"go/token"
 	"os"
 	"strings"
 
@@ -544,6 +545,64 @@ func c17summary(w *World, r *Report) {
 		}
 	}
 	r.Check(filt, "C17.summary", "genesis variant filters by IsGenesisOrFromGenesis", pos, "filter present", "no genesis filter")
+	// the record whose lineage is asked and the account that is summed belong together: the address the account is
+	// loaded under is the Address of the very trace element the filter is applied to (same list, same position) - a
+	// filter indexed by the position in another (compacted) list judges an account by its neighbour's lineage
+	{
+		elemOf := func(v ssa.Value) ssa.Value {
+			b := v
+			if u, ok := b.(*ssa.UnOp); ok && u.Op == token.MUL {
+				b = u.X
+			}
+			b = normElemBase(b)
+			if _, ok := b.(*ssa.IndexAddr); ok {
+				return b
+			}
+			return nil
+		}
+		var filtElems []ssa.Value
+		for _, e := range w.effectsBelow(fn, func(s *Site) bool {
+			return calleeIs(s, "x/cfevesting/types.VestingAccountTrace.IsGenesisOrFromGenesis")
+		}, 0) {
+			if a := e.Site.Common().Args; len(a) > 0 {
+				if el := elemOf(a[0]); el != nil {
+					filtElems = append(filtElems, el)
+				}
+			}
+		}
+		var addrElems []ssa.Value
+		for _, s := range cg.Sites[fn] {
+			n := s.CalleeName()
+			if !(strings.HasSuffix(n, "ContinuousVestingAccount.GetVestingCoins") || strings.HasSuffix(n, "ContinuousVestingAccount.LockedCoins")) || len(s.Common().Args) == 0 {
+				continue
+			}
+			o := tr.Origins(s.Common().Args[0])
+			for c := range o.Calls {
+				if !strings.HasSuffix(callName(c.Common()), "types.AccAddressFromBech32") || len(c.Common().Args) == 0 {
+					continue
+				}
+				if b, f, isF := elemField(c.Common().Args[0]); isF {
+					_ = f
+					if el := elemOf(b); el != nil {
+						addrElems = append(addrElems, el)
+					} else if ia, ok := normElemBase(b).(*ssa.IndexAddr); ok {
+						addrElems = append(addrElems, ia)
+					}
+				}
+			}
+		}
+		if len(filtElems) > 0 && len(addrElems) > 0 {
+			same := true
+			for _, fe := range filtElems {
+				for _, ae := range addrElems {
+					if !sameElem(fe, ae, 0) {
+						same = false
+					}
+				}
+			}
+			r.Check(same, "C17.summary", "the trace filtered and the account summed are the same record", pos, "the account is loaded under the Address of the trace element the filter is applied to", "the genesis filter is applied to another trace than the one whose account is summed (a different list or position): accounts are judged by a neighbour's lineage")
+		}
+	}
 	// closed world: which traced accounts are counted. In the loop over the traces the only conditions that let an
 	// iteration end without reaching the two sums are the genesis filter and the account-type test.
 	{
